@@ -99,3 +99,38 @@ def is_noise(st: ast.stmt) -> bool:
 
 def effective_body(stmts: list[ast.stmt]) -> list[ast.stmt]:
     return [s for s in stmts if not is_noise(s)]
+
+
+def early_return_atom(body: list[ast.stmt]) -> str | None:
+    """Canonical atom under which a routine returns at once without doing anything: `if C: return` as the first effective
+    statement, or (canonical form) a body that is one `if P:` without else."""
+    from ..norm import canon_atom
+
+    eff = effective_body(body)
+    if not eff or not isinstance(eff[0], ast.If):
+        return None
+    first = eff[0]
+    if len(first.body) == 1 and isinstance(first.body[0], ast.Return) and first.body[0].value is None and not (len(eff) == 1 and first.orelse):
+        t, pol = first.test, True
+    elif len(eff) == 1 and not first.orelse:
+        t, pol = first.test, False
+    else:
+        return None
+    while isinstance(t, ast.UnaryOp) and isinstance(t.op, ast.Not):
+        t, pol = t.operand, not pol
+    return canon_atom(t, pol)
+
+
+def entry_gate(body: list[ast.stmt], test_text: str, exc: str) -> bool:
+    """The routine starts with `if not <test_text>: raise <exc>` - in either the guard-clause or the canonical if/else form."""
+    eff = effective_body(body)
+    if not eff or not isinstance(eff[0], ast.If):
+        return False
+    first = eff[0]
+    t = norm(first.test)
+    raises = lambda blk: any(isinstance(x, ast.Raise) and exc in norm(x) for x in blk)
+    if t == "not" + test_text:
+        return raises(first.body)
+    if t == test_text:
+        return raises(first.orelse) and len(eff) == 1
+    return False
